@@ -302,7 +302,7 @@ Print Assumptions C01_histc_example_spec.
 From Coq Require Import Bool List NArith PArith FMapPositive.
 From OxiVerif Require Import DD.Sem DD.Build DD.Apply DD.ConfigApply DD.FamSpec DD.ZbddOps DD.ZbddOpsProofs DD.ZbddBool
   DD.ZbddBoolProofs DD.ZbddEvalProofs Mgr.LevelSwapZ Mgr.LevelSwapZProofs Mgr.HistoryExamples
-  Mgr.HistoryZ Mgr.HistoryZBase Mgr.HistoryZFam Mgr.HistoryZProofs Mgr.HistoryZThms Mgr.HistoryZSpec Mgr.HistoryZTie
+  Mgr.HistoryZ Mgr.HistoryZBase Mgr.HistoryZCache Mgr.HistoryZFam Mgr.HistoryZProofs Mgr.HistoryZThms Mgr.HistoryZSpec Mgr.HistoryZTie
   Mgr.HistoryZExamples.
 
 (* the property: after ANY history two slots hold the same edge iff they denote the same function of the variables *)
@@ -312,10 +312,8 @@ Theorem C01_histz_canonical :
   zlossy C cget cadd ->
   forall cempty : C,
   (forall (k : N) (a : list ref) (m : list nat), cget cempty k a m = None) ->
-  forall cav : C -> C,
-  cav_ok C cget cav ->
   forall (n : nat) (st : hstate_z C),
-  hreach_z gt C cget cadd cempty cav n st ->
+  hreach_z gt C cget cadd cempty n st ->
   forall (x y : N) (ex ey : edge),
   hget (s_handles (hz_s C st)) x = Some ex ->
   hget (s_handles (hz_s C st)) y = Some ey ->
@@ -330,10 +328,8 @@ Theorem C01_histz_canonical_fam :
   zlossy C cget cadd ->
   forall cempty : C,
   (forall (k : N) (a : list ref) (m : list nat), cget cempty k a m = None) ->
-  forall cav : C -> C,
-  cav_ok C cget cav ->
   forall (n : nat) (st : hstate_z C),
-  hreach_z gt C cget cadd cempty cav n st ->
+  hreach_z gt C cget cadd cempty n st ->
   forall (x y : N) (ex ey : edge),
   hget (s_handles (hz_s C st)) x = Some ex ->
   hget (s_handles (hz_s C st)) y = Some ey ->
@@ -358,13 +354,11 @@ Theorem C01_histz_spec :
   zlossy C cget cadd ->
   forall cempty : C,
   (forall (k : N) (a : list ref) (m : list nat), cget cempty k a m = None) ->
-  forall cav : C -> C,
-  cav_ok C cget cav ->
   forall (st : hstate_z C) (o : zhop) (d : N) (F : bfun),
   HInvZ C cget st ->
   hspec_z C st o d F ->
   exists st' : hstate_z C,
-  hstep_z gt C cget cadd cempty cav st o = Some st' /\ HInvZ C cget st' /\ hframe_z C st o st' /\ zholds C st' d F.
+  hstep_z gt C cget cadd cempty st o = Some st' /\ HInvZ C cget st' /\ hframe_z C st o st' /\ zholds C st' d F.
 Proof. exact hstep_z_spec. Qed.
 Print Assumptions C01_histz_spec.
 
@@ -375,12 +369,10 @@ Theorem C01_histz_result_unique :
   zlossy C cget cadd ->
   forall cempty : C,
   (forall (k : N) (a : list ref) (m : list nat), cget cempty k a m = None) ->
-  forall cav : C -> C,
-  cav_ok C cget cav ->
   forall (st : hstate_z C) (o : zhop) (d : N) (F : bfun) (st' : hstate_z C),
   HInvZ C cget st ->
   hspec_z C st o d F ->
-  hstep_z gt C cget cadd cempty cav st o = Some st' ->
+  hstep_z gt C cget cadd cempty st o = Some st' ->
   forall y : N, zholds C st' y F -> hget (s_handles (hz_s C st')) y = hget (s_handles (hz_s C st')) d.
 Proof. exact histz_result_unique. Qed.
 Print Assumptions C01_histz_result_unique.
@@ -395,9 +387,6 @@ Theorem C01_histz_result_determined :
   forall (ce1 : C1) (ce2 : C2),
   (forall (k : N) (a : list ref) (m : list nat), cget1 ce1 k a m = None) ->
   (forall (k : N) (a : list ref) (m : list nat), cget2 ce2 k a m = None) ->
-  forall (cav1 : C1 -> C1) (cav2 : C2 -> C2),
-  cav_ok C1 cget1 cav1 ->
-  cav_ok C2 cget2 cav2 ->
   forall (st1 : hstate_z C1) (st2 : hstate_z C2) (o1 o2 : zhop) (d1 d2 : N) (F : bfun) (st1' : hstate_z C1)
   (st2' : hstate_z C2),
   HInvZ C1 cget1 st1 ->
@@ -406,8 +395,8 @@ Theorem C01_histz_result_determined :
   s_v2l (hz_s C1 st1) = s_v2l (hz_s C2 st2) ->
   hspec_z C1 st1 o1 d1 F ->
   hspec_z C2 st2 o2 d2 F ->
-  hstep_z gt1 C1 cget1 cadd1 ce1 cav1 st1 o1 = Some st1' ->
-  hstep_z gt2 C2 cget2 cadd2 ce2 cav2 st2 o2 = Some st2' ->
+  hstep_z gt1 C1 cget1 cadd1 ce1 st1 o1 = Some st1' ->
+  hstep_z gt2 C2 cget2 cadd2 ce2 st2 o2 = Some st2' ->
   exists r1 r2 : ref,
   zslot C1 st1' d1 = Some r1 /\
   zslot C2 st2' d2 = Some r2 /\
@@ -430,9 +419,9 @@ Print Assumptions C01_histz_example.
 
 (* the hypotheses of the spec for restrict (a cube given as a FUNCTION) and for change are satisfiable *)
 Theorem C01_histz_example_spec :
-  (exists st', hstep_z zgtA zacache zac_get zac_add nil zcavA exz_stA (ZHRestrict 31 5 8) = Some st' /\
+  (exists st', hstep_z zgtA zacache zac_get zac_add nil exz_stA (ZHRestrict 31 5 8) = Some st' /\
   zholds zacache st' 31 (restrict_s ((0, true) :: (2, false) :: (3, false) :: nil) zfA5)) /\
-  (exists st', hstep_z zgtA zacache zac_get zac_add nil zcavA exz_stA (ZHSub ZChange 31 5 3) = Some st' /\
+  (exists st', hstep_z zgtA zacache zac_get zac_add nil exz_stA (ZHSub ZChange 31 5 3) = Some st' /\
   zholds zacache st' 31 (zsub_s ZChange 3 zfA5)).
 Proof. exact (conj exz_spec_restrict exz_spec_change). Qed.
 Print Assumptions C01_histz_example_spec.
